@@ -355,7 +355,9 @@ func (w *world) apply(ai int, a Action, st *streamModel) *pbt.Violation {
 			return nil
 		}
 		if resp.ErrorCode == base.ErrorCodeListenUdpPortFail {
+			// lal had accepted the input (and started its outputs) before it found no port
 			pbt.Count("rtp-pub-no-free-udp-port", 1)
+			st.accepted++
 			return nil
 		}
 		if resp.ErrorCode != base.ErrorCodeSucc {
@@ -927,7 +929,11 @@ func (w *world) probe(ai int, a Action, st *streamModel) *pbt.Violation {
 	}
 	if fileOut {
 		pbt.Count("judged-output:"+w.c.Out+"<-"+in.kind, 1)
-		return w.outputsHave(ai, a, st)
+		var resend func()
+		if in.kind == "ps" {
+			resend = func() { _ = w.sendAvProbe(in, pat) }
+		}
+		return w.outputsHave(ai, a, st, resend)
 	}
 	return nil
 }
